@@ -5,7 +5,7 @@ import os
 
 HERE = os.path.dirname(os.path.abspath(__file__))
 rows, per_round = [], {}
-ROUND = {"first": 1, "second": 2, "third": 3, "fourth": 4, "fifth": 5, "sixth": 6, "eighth": 8, "tenth": 10, "eleventh": 11}
+ROUND = {"first": 1, "second": 2, "third": 3, "fourth": 4, "fifth": 5, "sixth": 6, "eighth": 8, "tenth": 10, "eleventh": 11, "twelfth": 12}
 for d in sorted(glob.glob(os.path.join(HERE, "seeded", "C*-*", "meta.json"))):
     m = json.load(open(d))
     name = os.path.basename(os.path.dirname(d))
@@ -18,7 +18,7 @@ for d in sorted(glob.glob(os.path.join(HERE, "seeded", "C*-*", "meta.json"))):
 total = sum(b for _, b in per_round.values())
 caught = sum(a for a, _ in per_round.values())
 now = sum(1 for r in rows if "NOT CAUGHT" not in r)
-notes = {5: ", which asked for changes a random small-scenario harness would miss", 8: ", which asked for changes that show only under a particular history or schedule", 10: ", which asked for changes confined to an easily overlooked corner of the input or parameter space", 11: ", which asked for changes in rarely exercised parts of the public interface"}
+notes = {5: ", which asked for changes a random small-scenario harness would miss", 8: ", which asked for changes that show only under a particular history or schedule", 10: ", which asked for changes confined to an easily overlooked corner of the input or parameter space", 11: ", which asked for changes in rarely exercised parts of the public interface", 12: ", five properties, free choice of area"}
 text = f"""# Seeded changes
 
 Independently written changes to sdrobert/pydrobert-pytorch that break one property each while the existing tests keep passing. Each was written by a sub-agent that saw only the property text (later rounds: plus the earlier ideas to avoid and a focus hint) and its own scratch worktree; each was confirmed here (existing tests pass with the change, the demonstration fails with it and passes without it: `verification.txt`, written by `tools_seed_verify.sh`) before being kept. None is ever committed to /repo. (Round 7 was the reverse exercise: property-preserving changes, see `../benign/`.)
